@@ -102,6 +102,11 @@ def transOracle (op : String) (c : Ctx) (x y : Dec) (o : Out) : List (String × 
             let directed := c.mode == .up || c.mode == .down || c.mode == .ceiling || c.mode == .floor || c.mode == .r05up
             if directed && !(certainlyOff W v enc ⟨105 * u.m, u.e - 2⟩) then
               [("C12", s!"marginal-directed: within 1.05 ulp (but beyond 1 ulp) of the exact value under a directed rounding mode")]
+            else if op == "ln" && x.exp < 0 && decide (11 * 10 ^ (-x.exp).toNat < 10 * x.coeff) &&
+                decide (10000 * x.coeff < 11052 * 10 ^ (-x.exp).toNat) && !(certainlyOff W v enc ⟨5 * u.m, u.e⟩) then
+              -- 1.1 < x < e^0.1: the code rescales to x/10 and adds ln 10, and -2.2 + 2.3 cancels a digit that the
+              -- Precision+2 working digits do not have (C12_ln_halley_ulps_small bounds the excess by 4.6 ulp)
+              [("C12", s!"ln-cancellation-zone: 1.1 < x < e^0.1, result beyond one ulp (but within 5) of the exact value")]
             else if op == "pow" && (ndigits y.coeff : Int) + y.exp > 9 then
               -- repeated squaring doubles the relative error at every step; the working precision only
               -- budgets for exponents of at most six digits
